@@ -71,7 +71,7 @@ def bounded_transparency(reg, tier, seed):
     try:
         h.open_circuits()
         state0 = (h.session.main_region, len(h.session.regions), dict(h.protocol.far_to_near_map))
-        next_id = {(d, r): 1 for d in ("OUT", "IN") for r in (0, 1)}
+        next_id = {(d, r): 0 for d in ("OUT", "IN") for r in (0, 1)}      # sequence numbers start at 0 (0 is an ID like any other)
         handled_names = []
         h.session.message_handler.subscribe("*", lambda m: handled_names.append(m.name))
         for r_ in h.session.regions:
